@@ -16,6 +16,9 @@ from . import impl
 _LOCK_TYPES = (type(threading.Lock()), type(threading.RLock()))
 
 
+HANG_TIMEOUT = 60
+
+
 class Deadlock(Exception):
     pass
 
@@ -144,6 +147,41 @@ class CoopLock:
         return self.owner is not None
 
 
+_REAL_LOCK, _REAL_RLOCK = threading.Lock, threading.RLock
+
+
+def install_lock_factory(pkg_dir, sched_ref, created):
+    """From now on every threading.Lock()/RLock() *created by code of the package* (module level, in an
+    instance, at import or later; `import threading` and `from threading import Lock` alike) is a CoopLock.
+    Locks created by any other code (threading.Condition, attrs, cattrs ...) stay real."""
+    pkg_dir = os.path.realpath(pkg_dir) + os.sep
+
+    def from_package():
+        f = sys._getframe(2)
+        try:
+            return os.path.realpath(f.f_code.co_filename).startswith(pkg_dir), "%s:%d" % (os.path.basename(f.f_code.co_filename), f.f_lineno)
+        except Exception:  # noqa: BLE001
+            return False, ""
+
+    def lock():
+        mine, where = from_package()
+        if not mine:
+            return _REAL_LOCK()
+        cl = CoopLock(sched_ref, False, "Lock@" + where)
+        created.append(cl)
+        return cl
+
+    def rlock():
+        mine, where = from_package()
+        if not mine:
+            return _REAL_RLOCK()
+        cl = CoopLock(sched_ref, True, "RLock@" + where)
+        created.append(cl)
+        return cl
+
+    threading.Lock, threading.RLock = lock, rlock
+
+
 class Sched:
     def __init__(self, n, prefix, is_point):
         self.n = n
@@ -159,6 +197,7 @@ class Sched:
         self.is_point = is_point
         self.idents = {}
         self.deadlock = False
+        self.hang = False
         self.max_points = 200000
 
     # -- identity
@@ -278,8 +317,9 @@ class Sched:
             t.start()
             ths.append(t)
         self.sems[0].release()
-        if not self.main.acquire(timeout=120):
+        if not self.main.acquire(timeout=HANG_TIMEOUT):
             self.errors = ["Hang"] * self.n
+            self.hang = True
             return
         for t in ths:
             t.join(timeout=10)
@@ -293,15 +333,25 @@ def preemptions(points, trace, upto=None):
     return c
 
 
-def explore(n, bound, run_once, on_execution, first_level_filter=None):
+class Capped(Exception):
+    pass
+
+
+def explore(n, bound, run_once, on_execution, first_level_filter=None, deadline=None, exact=False):
     """Iterative context bounding.  run_once(prefix) -> Sched (completed execution);
-    on_execution(sched).  first_level_filter(i) restricts the first deviation (work splitting)."""
+    on_execution(sched).  first_level_filter(i) restricts the first deviation (work splitting).
+    exact: report only executions with exactly `bound` preemptions (the caller iterates the bound).
+    deadline (time.time() value): raise Capped before starting an execution after it."""
+    import time as _time
     count = [0]
 
     def rec(prefix, depth):
+        if deadline is not None and _time.time() > deadline:
+            raise Capped()
         s = run_once(prefix)
         count[0] += 1
-        on_execution(s, prefix)
+        if not exact or getattr(s, "hang", False) or preemptions(s.points, s.trace) == bound:
+            on_execution(s, prefix)
         # divergence check: the replayed part must have the same shape
         for i in range(len(prefix), len(s.points)):
             tid, where, k, pre = s.points[i]
